@@ -235,7 +235,7 @@ def run_property(pid, tier, seed, mod):
         "build_notes": notes,
     }
     if chk_note is not None:
-        cov["trusted_base"].append("coqchk -o (independent checker) on BFS.Props.%s: %s" % (pid, chk_note[-400:].replace("\n", " ")))
+        cov["trusted_base"].append("coqchk -o (independent checker) on %s: %s" % (" ".join("BFS.Props." + os.path.basename(r)[:-2] for r in props_files(pid)), chk_note[-400:].replace("\n", " ")))
     cov.update(extra.get("coverage", {}))
     write_evidence(pid, tier, seed, cov, mod.ASSUMPTIONS, time.time() - t0, 1 if status else 0)
     return status
